@@ -92,11 +92,22 @@ def machine_structures(n_ops, M, flexible=False, canonical=False, require_all=Fa
 # --------------------------------------------------------------------------
 # instance construction (same code in symbolic and concrete mode)
 # --------------------------------------------------------------------------
+CTX = {}   # the sub-space the harness is currently running for ('share', 'history' are read by build_instance / choose_dispatch)
+
+
+def call_harness(mod, e, sp):
+    CTX.clear()
+    CTX.update(sp)
+    return mod.harness(e, sp)
+
+
 def build_instance(eng, shape, machines, dmin=0, prefix="d", name="JobShopInstance", share=None):
     """share[k] = index of the duration variable of operation k (operations with the same index share one symbolic
     duration: tie-rich wide instances with few paths); default: one variable per operation."""
     from job_shop_lib import JobShopInstance, Operation
 
+    if share is None and shape == CTX.get("shape"):
+        share = CTX.get("share")
     durs = []
     jobs = []
     k = 0
@@ -137,6 +148,18 @@ def lib_lists(schedule):
 def choose_dispatch(eng, desc: Desc, spec: Spec, candidates=None):
     """Pick a ready operation (by op id) and one of its eligible machines."""
     ready = spec.ready_ops() if candidates is None else candidates
+    policy = CTX.get("history")
+    if policy:
+        # wide sub-spaces follow a few fixed histories instead of every interleaving
+        if policy == "jobmajor":
+            op = ready[0]
+        elif policy == "reverse":
+            op = ready[-1]
+        else:   # roundrobin: the next job after the one dispatched last
+            last = desc.job_of[spec.history[-1][0]] if spec.history else -1
+            later = [o for o in ready if desc.job_of[o] > last]
+            op = (later or ready)[0]
+        return op, desc.machines[op][0]
     op = ready[eng.choice(len(ready), "op")]
     ms = desc.machines[op]
     m = ms[eng.choice(len(ms), "machine")] if len(ms) > 1 else ms[0]
@@ -209,7 +232,7 @@ def _concrete_run(mod, sp, values, choices):
     ce = E.Engine("conc", values=values, choices=choices)
     with models.suspended():
         try:
-            obs = ce.run_concrete(lambda e: mod.harness(e, sp))
+            obs = ce.run_concrete(lambda e: call_harness(mod, e, sp))
             err = None
         except E.EngineFault:
             raise
@@ -248,7 +271,7 @@ def concrete_grid(mod, sp, eng, deadline):
         ce = E.Engine("conc", values=dict(zip(names, combo)), choices=None)
         with models.suspended():
             try:
-                ce.explore_concrete(lambda e: mod.harness(e, sp), deadline=deadline)
+                ce.explore_concrete(lambda e: call_harness(mod, e, sp), deadline=deadline)
             except Exception:
                 continue
         for v in ce.violations:
@@ -283,7 +306,7 @@ def run_subspace(args):
 
         def harness(e):
             try:
-                mod.harness(e, sp)
+                call_harness(mod, e, sp)
             except E.Unsupported as u:
                 e.stats["degraded_paths"] += 1
                 vals = e.model_values()
@@ -578,7 +601,7 @@ def replay(prop_id, path):
     ce = E.Engine("conc", values=rp["values"], choices=rp["choices"])
     err = None
     try:
-        ce.run_concrete(lambda e: mod.harness(e, sp))
+        ce.run_concrete(lambda e: call_harness(mod, e, sp))
     except Exception as ex:
         err = f"{type(ex).__name__}: {ex}"
     hit = [v for v in ce.violations if v.key == rp["key"]]
